@@ -186,6 +186,28 @@ def check_generate_mul(ctx, sizes):
                         break
 
 
+def check_generate_square(ctx, widths):
+    """`generate_square(n, type=mode, big_endian=be)` for every SquareMode, by exhaustive evaluation"""
+    import itertools
+    from cirbo.synthesis.generation.arithmetics import square as SQR
+    for mode in SQR.SquareMode:
+        for n in widths:
+            for be in (False, True):
+                ctx.case(json.dumps(['generate_square', mode.name, n, be])); ctx.count('generate_square:' + mode.name)
+                try:
+                    c = SQR.generate_square(n, type=mode, big_endian=be)
+                except Exception as e:  # noqa: BLE001
+                    ctx.violation('mul.generate_raises', f'generate_square({n},{mode.name},big_endian={be}) raised {err_name(e)}', input={'n': n, 'mode': mode.name, 'be': be})
+                    continue
+                for bits in itertools.product((False, True), repeat=n):
+                    a = bits_value(bits, be)
+                    got = bits_value(c.evaluate(list(bits)), be)
+                    if got != a * a:
+                        ctx.violation('mul.generate_value', f'generate_square({n},{mode.name},big_endian={be}): a={a}: got {got}',
+                                      input={'n': n, 'mode': mode.name, 'be': be, 'a': a})
+                        break
+
+
 def check_generate_weighted(ctx, rng, count):
     """`generate_sum_weighted_bits_{efficient,naive}(weights, basis=)` = bare circuit + the add_ function + set_outputs"""
     from cirbo.core.circuit import Circuit
@@ -227,6 +249,80 @@ def check_generate_weighted(ctx, rng, count):
                     ctx.violation('sum.generate_value', f'generate_sum_weighted_bits_{nm}({ws}, {basis}): inputs {bits} sum to {want}, outputs decode to {got}',
                                   input={'weights': ws, 'basis': basis, 'bits': bits})
                     break
+
+
+def check_generate_arith(ctx, thorough=False):
+    """the `generate_*` wrappers of the arithmetic generators, called as a user calls them, by exhaustive evaluation:
+    subtraction (unequal widths), div-mod, square root, equality, pairwise xor — both endiannesses"""
+    import itertools
+    from cirbo.synthesis.generation.arithmetics import subtraction as SB, div_mod as DM, sqrt as SQ, equality as EQ
+    from cirbo.synthesis.generation import generation as GG
+    import math
+
+    def rows(c, n_in):
+        return [(bits, c.evaluate(list(bits))) for bits in itertools.product((False, True), repeat=n_in)]
+    wmax = 5 if thorough else 4
+    for be in (False, True):
+        for n in range(1, wmax + 1):
+            for m in range(1, wmax + 1):
+                ctx.case(json.dumps(['generate_sub', n, m, be])); ctx.count('generate_sub_two_numbers')
+                try:
+                    c = SB.generate_sub_two_numbers(n, m, big_endian=be)
+                    for bits, out in rows(c, n + m):
+                        a, b = bits_value(bits[:n], be), bits_value(bits[n:], be)
+                        if len(out) != n or bits_value(out, be) != (a - b) % (1 << n):
+                            ctx.violation('sub.generate_value', f'generate_sub_two_numbers({n},{m},big_endian={be}): a={a}, b={b}: got {bits_value(out, be)} on {len(out)} bits',
+                                          input={'n': n, 'm': m, 'be': be, 'a': a, 'b': b})
+                            break
+                except Exception as e:  # noqa: BLE001
+                    ctx.violation('gadget.generate_raises', f'generate_sub_two_numbers({n},{m},big_endian={be}) raised {err_name(e)}', input={'n': n, 'm': m, 'be': be})
+        for n in range(1, (4 if thorough else 3) + 1):
+            ctx.case(json.dumps(['generate_div_mod', n, be])); ctx.count('generate_div_mod')
+            try:
+                c = DM.generate_div_mod(n, big_endian=be)
+                for bits, out in rows(c, 2 * n):
+                    a, b = bits_value(bits[:n], be), bits_value(bits[n:], be)
+                    want = (a // b, a % b) if b else (0, 0)
+                    got = (bits_value(out[:n], be), bits_value(out[n:], be))
+                    if len(out) != 2 * n or got != want:
+                        ctx.violation('divmod.generate_value', f'generate_div_mod({n},big_endian={be}): a={a}, b={b}: got {got}, expected {want}',
+                                      input={'n': n, 'be': be, 'a': a, 'b': b})
+                        break
+            except Exception as e:  # noqa: BLE001
+                ctx.violation('gadget.generate_raises', f'generate_div_mod({n},big_endian={be}) raised {err_name(e)}', input={'n': n, 'be': be})
+        for n in range(1, (9 if thorough else 7) + 1):
+            ctx.case(json.dumps(['generate_sqrt', n, be])); ctx.count('generate_sqrt')
+            try:
+                c = SQ.generate_sqrt(n, big_endian=be)
+                for bits, out in rows(c, n):
+                    a = bits_value(bits, be)
+                    if len(out) != (n + 1) // 2 or bits_value(out, be) != math.isqrt(a):
+                        ctx.violation('sqrt.generate_value', f'generate_sqrt({n},big_endian={be}): a={a}: got {bits_value(out, be)} on {len(out)} bits',
+                                      input={'n': n, 'be': be, 'a': a})
+                        break
+            except Exception as e:  # noqa: BLE001
+                ctx.violation('gadget.generate_raises', f'generate_sqrt({n},big_endian={be}) raised {err_name(e)}', input={'n': n, 'be': be})
+    for n in range(1, 4):
+        for num in range(-2, (1 << n) + 2):
+            ctx.case(json.dumps(['generate_equal', n, num])); ctx.count('generate_equal')
+            try:
+                c = EQ.generate_equal(n, num)
+                for bits, out in rows(c, n):
+                    if out != [bits_value(bits, False) == num]:
+                        ctx.violation('equal.generate_value', f'generate_equal({n},{num}) on operand {bits_value(bits, False)}: {out}', input={'n': n, 'num': num})
+                        break
+            except Exception as e:  # noqa: BLE001
+                ctx.violation('gadget.generate_raises', f'generate_equal({n},{num}) raised {err_name(e)}', input={'n': n, 'num': num})
+    for n in (1, 2, 3):
+        ctx.case(json.dumps(['generate_pairwise_xor', n])); ctx.count('generate_pairwise_xor')
+        try:
+            c = GG.generate_pairwise_xor(n)
+            for bits, out in rows(c, 2 * n):
+                if out != [bits[k] != bits[n + k] for k in range(n)]:
+                    ctx.violation('gadget.generate_xor_value', f'generate_pairwise_xor({n}) on {bits}: {out}', input={'n': n, 'bits': list(bits)})
+                    break
+        except Exception as e:  # noqa: BLE001
+            ctx.violation('gadget.generate_raises', f'generate_pairwise_xor({n}) raised {err_name(e)}', input={'n': n})
 
 
 def check_generate_ite(ctx):
